@@ -350,6 +350,43 @@ Definition span_build (s : span) : event :=
      (s2b "status", SStr (status_name (sp_status s)))] [])
   ++ [(s2b "events", SStr (s2b "null")); (s2b "links", SStr (s2b "[]"))].
 
+(* 3.6 whole export requests: what is carried from one loop iteration to the next.
+   ProcessTraceIngest declares [service] INSIDE the loop over ResourceSpans: every resource
+   starts from the empty name; the scopes of a resource do not matter for a span. *)
+Record res_spans := { rs_attrs : event; rs_spans : list span }.   (* nil Resource = no attributes *)
+Definition k_service_name := s2b "service.name".
+(* service = keyvalue.Value.GetStringValue() for every attribute called service.name *)
+Definition service_scan (init : bytes) (attrs : event) : bytes :=
+  fold_left (fun acc kv => if bytes_eqb (fst kv) k_service_name
+                           then match snd kv with SStr v => v | _ => [] end else acc) attrs init.
+Definition set_service (svc : bytes) (s : span) : span :=
+  {| sp_trace := sp_trace s; sp_span := sp_span s; sp_parent := sp_parent s; sp_service := svc;
+     sp_state := sp_state s; sp_name := sp_name s; sp_kind := sp_kind s; sp_start := sp_start s;
+     sp_end := sp_end s; sp_datt := sp_datt s; sp_dev := sp_dev s; sp_dlink := sp_dlink s;
+     sp_status := sp_status s; sp_attrs := sp_attrs s |}.
+Fixpoint trace_request (rs : list res_spans) : list event :=
+  match rs with
+  | [] => []
+  | r :: rest =>
+      let service := service_scan [] (rs_attrs r) in
+      map (fun s => span_build (set_service service s)) (rs_spans r) ++ trace_request rest
+  end.
+(* the same loop with the variable declared OUTSIDE (not the code; used to state what must not happen) *)
+Fixpoint trace_request_carried (service : bytes) (rs : list res_spans) : list event :=
+  match rs with
+  | [] => []
+  | r :: rest =>
+      let service' := service_scan service (rs_attrs r) in
+      map (fun s => span_build (set_service service' s)) (rs_spans r) ++ trace_request_carried service' rest
+  end.
+
+(* ingestLogs: resource info per ResourceLogs, scope info per ScopeLogs, one record map per LogRecord *)
+Definition res_logs := (otlp_res * list (otlp_scope * list otlp_rec))%type.
+Definition logs_request_recs (rs : list res_logs) : list (otlp_res * otlp_scope * otlp_rec) :=
+  flat_map (fun rl => flat_map (fun sl => map (fun r => (fst rl, fst sl, r)) (snd sl)) (snd rl)) rs.
+Definition logs_request (rs : list res_logs) : list event :=
+  map (fun t => otlp_log_build (fst (fst t)) (snd (fst t)) (snd t)) (logs_request_recs rs).
+
 (* ---------- 4. protocol builders (metrics) ---------- *)
 (* a finite float64 as the dyadic rational num / 2^den (canonical: den = 0 or num odd) *)
 Record dyad := { dy_num : Z; dy_den : N }.
